@@ -268,6 +268,22 @@ META = {
         level_text="All add/change/callback histories up to length 5 (quick) / 6 (thorough) and all interleavings of the add-track race are enumerated against a probe monitor; second/hertz measurements sample ~10^4 (quick) / 10^6 (thorough) rate cells. Exploration: longer histories and the continuous parameter space are sampled.",
         level_note="Trusts the harness probe Effect and the controlled scheduler (only hook sites and explicit yields are scheduling points).",
     ),
+    "C17": dict(
+        level="exploration",
+        technique="runtime monitoring: probe Effect holding kira::Parameter values linked to real LFO/tweener/custom modulators (and a DC sound with linked volume) compared chunk by chunk with an independent interval model of the documented curves; master probe modulator numbering chunks for the exactly-once / before-readers check",
+        design_ref="DESIGN.md §3 C17",
+        rule=("Scenes: 1-8 modulators (LFO sine/triangle/saw/pulse widths {0,0.1,0.25,0.5,0.9,1}; tweener; custom probe modulator) whose frequency/amplitude/offset are fixed or linked to earlier modulators through random mappings (inverted input ranges, all easings), read by probe-effect parameters through identity and random mappings and by a DC sound's volume; "
+              "histories of 4-14 callbacks of random sizes (sr 1000/8000/44100, internal buffer 1/4/16/50/128) with handle commands between callbacks: tweener set, LFO set_frequency/amplitude/offset (fixed or linked targets, tweens incl. zero duration), set_waveform, set_phase, drops of any modulator, late additions. "
+              "Every chunk: each linked parameter must lie in the image of the model's value (an exact point, or an interval while an LFO's frequency is changing) of the SAME chunk (1e-9 relative; 2e-5 for the audible gain at the chunk's last frame); parameters of removed modulators hold bit-exactly; the effect must see the master modulator already updated for this chunk; "
+              "every probe modulator is updated exactly once per chunk with dt = frames/sample rate. Constant-parameter LFOs are additionally compared with the analytic waveform at phase0/2pi + f t and with offset +- |amplitude|. "
+              "Reads whose value the model cannot know (downstream of an interval) are counted separately, not judged. A dedicated case re-links an LFO to a later-created tweener (known finding). A case is distinct when (modulator count, event kinds, sound present, buffer size) is new."),
+        domain="frequencies 0..0.35/chunk duration (so adjacent chunks differ), amplitudes/offsets in [-2,2], mapping ranges within [-10,10], tweens 0..6 chunks, immediate start; links only to earlier-created modulators except in the dedicated forward-link case",
+        assumptions=["while an LFO's frequency is being tweened any integration rule between the chunk's two end frequencies is accepted", "tween start times other than Immediate are C06's subject"],
+        quick=[rel(25)],
+        thorough=[rel(600), dict(engine="native-dev", shards=16, budget=120)],
+        level_text="Chunk-by-chunk comparison of real modulators and everything linked to them against an independent model over ~5x10^4 (quick) / 10^7 (thorough) random scenes; exploration.",
+        level_note="Trusts the harness model of the documented modulator/parameter behaviour and the probe Effect/Modulator implementations of the public traits.",
+    ),
     "C19": dict(
         level="exploration",
         technique="runtime monitoring: exhaustive f32 sweeps + dense boundary-biased sampling of the public conversion functions against independent f64 oracles",
